@@ -25,3 +25,17 @@ add("C13", T + ": exhaustive grid enumeration + Hypothesis-generated sizes/point
     "All grid sizes up to a bound are enumerated and every numbering/connectivity table compared with an independently derived one; shape-function identities are checked at generated points. Exhaustive for the stated grid sub-space, sampled for element sizes and points.", "DESIGN.md §3 C13")
 add("C14", T + ": generated domains/directions/parameters/fields vs an element-by-element reference of Langelaar's scheme + metamorphic mirror/axis-swap relations",
     "OverhangFilter output vs an independent layer-by-layer reference (1e-12), bounds, string/vector direction equivalence, mirror and axis-swap relations.", "DESIGN.md §3 C14")
+add("C10", T + ": generated convex problems as pyMOTO networks; recording wrapper around the MMA subproblem solver; per-iteration invariants + own KKT residual + closed-form optimum",
+    "Every iteration of minimize_mma on generated convex problems is observed through a recording wrapper of subsolv and the callback: bounds, move limits, asymptotes, approximation value/gradient reproduction, subproblem KKT residual recomputed by the check, write-back to the right signals, approach to the oracle optimum.", "DESIGN.md §3 C10")
+add("C15", T + ": generated straight-line programs over DyadCarrier vs a dense numpy reference model (model-based); atheris coverage-guided engine in the thorough tier",
+    "Programs of constructor/operator/slicing/contract operations are executed on DyadCarrier and on dense matrices; after every step values, shapes, dtype class and operand immutability are compared (1e-12).", "DESIGN.md §3 C15")
+add("C16", T + ": exhaustive small vectors over a value grid + generated vectors/options/response sequences vs analytic bounds, exact-fraction active-set validity predicate and the damping recurrence",
+    "Aggregation bounds, undamped exactness, damping recurrence and the active-set rule (as a validity predicate admitting ties) on all vectors over a 4-level grid up to n=6 (quick) / 7 (thorough) plus generated cases.", "DESIGN.md §3 C16")
+add("C17", T + ": generated OC runs observed by a recording module vs own OC map with exact multiplier (bisection) and water-filling optimum",
+    "Every design of minimize_oc runs on generated separable/compliance problems is checked for bounds, move limit, volume (when reachable, to bisection tolerance), write-back and convergence to the analytic optimum.", "DESIGN.md §3 C17")
+add("C18", T + ": generated operation histories on Signal/SignalSlice vs a plain-numpy reference model (model-based); atheris engine in the thorough tier",
+    "Histories of state/sensitivity assignments, add_sensitivity (incl. shared objects), resets and slicing are replayed against a numpy model after every step, with aliasing checks via shares_memory.", "DESIGN.md §3 C18")
+add("C19", T + ": generated modules/networks with known exact Jacobians (correct and deliberately wrong variants) vs the tuples finite_difference reports",
+    "finite_difference is run on generated modules with exact Jacobians; every reported (x0, dx, an, fd) tuple, their count/order, detection of wrong variants, state restoration and reset are checked.", "DESIGN.md §3 C19")
+add("C20", T + ": round trip — generated domains/arrays/options written by WriteToVTI/ScalarToFile, decoded with xml.etree/base64/struct and compared",
+    "Files written for generated inputs are parsed back independently (XML structure, extents, spacing, base64 float32 payloads, names, sections, file naming; log header/rows) and compared with the inputs.", "DESIGN.md §3 C20")
